@@ -95,6 +95,16 @@ CHECKS = {
    technique="accepted projects enumerated by TLC from the TLA+ models (SchemaModel, SchemaModelExtra, SchemaText, AllOf, RefPositions) with RuleSemantics-derived accepted variations; OpenAPI conversions judged by an independent JSON Schema validator (jsonschema via tools/oas_validate.py)",
    text="Programs are the accepted projects the other specifications emit (rule families on six skeletons, enum/const/nullable/formats/or, annotated objects with references, choices, key shortcuts, nested containers and escaped keys, inheritance projects, reference-position projects). For each the library produces Example(), the OpenAPI conversion of the root and of every registered type (assembled as #/components/schemas/*). The validator (jsonschema, Draft 4 vocabulary + nullable, numbers as exact decimals, hand-written OpenAPI 3.0 Schema Object meta-schema) checks well-formed JSON, well-formed Schema Object, example is an instance, and every variation that RuleSemantics says the rules accept (the other values of the same skeleton+rules group, same JSON number kind) is an instance.",
    note="Instance-of for Schema Objects is delegated to jsonschema (DESIGN §2.5); format is an annotation. Quick tier stride-samples the programs. Known finding: the allOf conversion."),
+ "C02": dict(
+   category="model_checking", design_ref="DESIGN.md §3 C02",
+   technique="inputs generated from the TLA+ specifications (JSchemaScan byte-class automaton with viable-prefix enumeration and TLC simulation, JsonDoc/Number/RegexDelim/EnumRule graphs, truncations and mutations of printed SchemaText projects, TypeGraph cycles) run through every public operation in isolated worker processes",
+   text="JSchemaScan.tla is a byte-class automaton of the schema language (JSON values, @references and choices, key shortcuts, # and ### comments, // and /* */ annotations with rule objects and notes) used as a generator: every viable class string up to length 4/5 (with end of input after every prefix) and TLC-simulated behaviours of 80 bytes, as root schema and as registered type; plus every class string of the JsonDoc, Number, RegexDelim automata, EnumRule token paths with every truncation, every truncation and seeded single-byte mutations of printed SchemaText projects, reference cycles in every position (TypeGraph graphs and listed cases, root registered under its own name), nesting/size to 10^4 (10^6 thorough), extreme exponents. Each case runs Len, Check, Example (also before Check), GetAST, UsedUserTypes, AddType, AddRule, NextLexeme, Values, NewNumber, GuessSchemaType and OpenAPI/Dereference of accepted schemas in worker processes: an escaped panic, a dead worker (stack overflow, fatal error) or no answer in 3 s (15 s for large inputs) is a violation.",
+   note="JSchemaScan is a generator, not an acceptance oracle (DESIGN §2.1). Bounded time is a wall-clock bound; stack depth is explored to the stated nesting, not proved."),
+ "C16": dict(
+   category="model_checking", design_ref="DESIGN.md §3 C16",
+   technique="TLA+ line/column reference (LineCol.tla) replayed on kit.JSchemaError; every rejection produced by the C02 generators judged against the diagnostic contract, positions checked with the LineCol semantics",
+   text="LineCol.tla gives line, column and line text of every byte of every text of <= 6 tokens under the LF, CR LF and CR conventions (TLC checks Monotone/ColumnsRestart); all are replayed on kit.JSchemaError through its public constructor (Line, Column, Error never panics) and on the harness's own position function. Every error returned by the entry-point operations on the C02 inputs is judged: a library diagnostic type (never runtime.Error or a bare error), code > 1, no formatting debris or pointers in the message, and if positioned: index inside the text of the file it names, line/column per LineCol, rendering succeeds and quotes the line.",
+   note="Texts that mix newline conventions, and the LF of a CR LF pair, have no line/column verdict. OpenAPI conversion errors of accepted schemas are outside the statement."),
 }
 
 REASON_PENDING = "check not built yet in this round (design in DESIGN.md §3); no claim is made"
